@@ -102,13 +102,29 @@ static void submit(item_t *it)
 {
 	dispatch_queue_t q = g_q[it->q];
 	it->call_seq = vrt_api("Call", g_obj[it->q], it->id, it->kind, it->q);
-	switch (it->kind) {
-	case K_ASYNC: dispatch_async_f(q, it, item_fn); break;
-	case K_BASYNC: dispatch_barrier_async_f(q, it, item_fn); break;
-	case K_SYNC: dispatch_sync_f(q, it, item_fn); break;
-	case K_BSYNC: dispatch_barrier_sync_f(q, it, item_fn); break;
-	case K_AAW: dispatch_async_and_wait_f(q, it, item_fn); break;
-	case K_BAAW: dispatch_barrier_async_and_wait_f(q, it, item_fn); break;
+	/* every form of each entry point: function + context, plain block, block object with private data */
+	unsigned form = (unsigned)(vrt_rand() % 10);
+	if (form < 7) {
+		switch (it->kind) {
+		case K_ASYNC: dispatch_async_f(q, it, item_fn); break;
+		case K_BASYNC: dispatch_barrier_async_f(q, it, item_fn); break;
+		case K_SYNC: dispatch_sync_f(q, it, item_fn); break;
+		case K_BSYNC: dispatch_barrier_sync_f(q, it, item_fn); break;
+		case K_AAW: dispatch_async_and_wait_f(q, it, item_fn); break;
+		case K_BAAW: dispatch_barrier_async_and_wait_f(q, it, item_fn); break;
+		}
+	} else {
+		dispatch_block_t plain = ^{ item_fn(it); };
+		dispatch_block_t made = form >= 8 ? dispatch_block_create(0, plain) : NULL, b = made ? made : plain;
+		switch (it->kind) {
+		case K_ASYNC: dispatch_async(q, b); break;
+		case K_BASYNC: dispatch_barrier_async(q, b); break;
+		case K_SYNC: dispatch_sync(q, b); break;
+		case K_BSYNC: dispatch_barrier_sync(q, b); break;
+		case K_AAW: dispatch_async_and_wait(q, b); break;
+		case K_BAAW: dispatch_barrier_async_and_wait(q, b); break;
+		}
+		if (made) _Block_release(made);
 	}
 	it->ret_seq = vrt_api("Ret", g_obj[it->q], it->id, it->kind, it->q);
 	if (it->kind >= K_SYNC) {
